@@ -16,7 +16,7 @@ prop("C10",
           "|k|<=0.98 (real signs / complex phases, all-equal-sign and maximal-modulus families included) through the "
           "inverse Levinson reference, shrunk by 0.9 until cond_2(T)<=1e6, and (b) as biased autocorrelations of generated "
           "data (order lowered until cond<=1e6); orders q<=p; real, complex, real-valued-complex, integer and list "
-          "inputs; indefinite sequences with one |k_j| in [1.05,3] at a drawn position j (j=0: |r1|>r0, rest free).  "
+          "inputs; indefinite sequences with one |k_j| in [1.05,3] at a drawn position j (j=0: |r1|>r0, rest free) and sequences with r0<=0.  "
           "General Toeplitz systems of size 2..40: strictly diagonally dominant with t0 of either sign / any phase, "
           "Hermitian PD ones, and (size 2..13) non-dominant ones built from two-sided reflection coefficients "
           "|g|<=1.5 with |1-g1 g2|>=0.2 whose leading blocks all have cond<=1e6; HPD systems M M^H + I and HPD Toeplitz for CHOLESKY x 3 back ends; real and complex "
@@ -28,8 +28,8 @@ prop("C10",
                   "rightly raises), so 'well-conditioned' is made concrete as cond_2(T) <= 1e6, enforced by construction",
                   "tolerance 1e-12*cond(T) relative (worst measured 2.2e-16*cond); P vs r0*prod(1-|k|^2) of the returned k: 1e-10",
                   "stability: Schur-Cohn step-down of the returned polynomial (all |k|<1) and numpy.roots moduli < 1+1e-7",
-                  "indefinite means r0>0 and a first non-positive prediction error at a known step (|k_j|>=1.05); sequences with "
-                  "r0<=0 are not autocorrelation sequences and are not generated",
+                  "indefinite means r0>0 and a first non-positive prediction error at a known step (|k_j|>=1.05), or a zero lag "
+                  "r0<=0 (C10.lev_neg: negated PD sequences, free tails, |r1|>|r0|, r0=0 with r1!=0), for which every order must raise",
                   "general TOEPLITZ is a Levinson-type solver: admissible = every leading principal block non-singular and "
                   "well-conditioned (strict diagonal dominance, Hermitian positive definite, or max cond of the leading blocks <= 1e6; "
                   "residual tolerance 1e-12*that cond*|z|, worst measured 4.4e-16)"],
@@ -448,6 +448,74 @@ def c10_lev_indef(ctx, case):
 
 
 # ----------------------------------------------------------------------------
+# LEVINSON on sequences whose zero lag is not positive (every leading block is then non-positive-definite)
+# ----------------------------------------------------------------------------
+@st.composite
+def lev_neg_case(draw):
+    cplx = draw(st.booleans())
+    p = draw(st.one_of(st.integers(1, 39), st.integers(1, 4)))
+    mode = draw(st.sampled_from(["negated", "negated", "free", "free", "big_r1", "zero"]))
+    d = {"mode": mode, "cplx": cplx, "p": p, "r0": draw(st.sampled_from(R0S)), "q": draw(st.integers(1, p)),
+         "form": draw(st.sampled_from(["array", "list"]))}
+    if mode == "negated":
+        d["k"] = draw(k_family(p, p, "complex" if cplx else "real", kmax=0.9))["k"]
+    else:
+        d["tail"] = draw(gen.signal(dtype="complex" if cplx else "real", kinds=("noise", "explicit", "int"), n=p, units=False))
+        d["r1_scale"] = draw(st.sampled_from([1.5, 2.0, 3.0, 10.0]))
+    return d
+
+
+def _neg_sequence(case):
+    p, r0 = case["p"], case["r0"]
+    if case["mode"] == "negated":
+        r, _a, _P = ref.inverse_levinson(gen.kvec(case["k"]).astype(complex), 1.0)
+        r = -r * r0
+    else:
+        tail = np.asarray(gen.realise(case["tail"]), dtype=complex)
+        m = float(np.max(np.abs(tail))) or 1.0
+        tail = tail / m                                   # |tail| <= 1, r0 = -1: |r1| <= |r0| unless enlarged below
+        if case["mode"] in ("big_r1", "zero") and tail[0] == 0:
+            tail[0] = 1.0
+        if case["mode"] == "big_r1":
+            tail[0] = tail[0] / abs(tail[0]) * case["r1_scale"]      # |r1| > |r0|: the running error turns positive again
+        r = np.concatenate(([0.0 if case["mode"] == "zero" else -1.0], tail)) * r0
+    return r if case["cplx"] else r.real.copy()
+
+
+@sub("C10.lev_neg", strategy=lev_neg_case(), quick=400, thorough=20000,
+     doc="zero lag <= 0 (negated positive-definite sequences, r0<0 with a free tail, |r1|>|r0|, r0=0 with r1!=0): no leading "
+         "block is positive definite, so LEVINSON raises ValueError for every order unless singularity is allowed")
+def c10_lev_neg(ctx, case):
+    r = _neg_sequence(case)
+    p, q, mode = case["p"], case["q"], case["mode"]
+    arg = r.tolist() if case["form"] == "list" else r
+    sig = {"clause": "r0<=0", "mode": mode}
+    ctx.sig_on_exception = sig
+    ctx.cls("complex" if case["cplx"] else "real", "form=" + case["form"], _bucket(p), "mode=" + mode)
+    ctx.nontrivial(p >= 2 or mode in ("big_r1", "zero"))
+    ctx.check(np.real(r[0]) <= 0 and (mode != "zero" or abs(r[1]) > 0), "generator: zero lag is positive")
+    ev = np.linalg.eigvalsh(_toep(r[:2]))
+    ctx.check(ev[0] < 0, "generator: the 2x2 leading block has no negative eigenvalue")
+    for args, kw, what in (((arg,), {}, "LEVINSON(r)"), ((arg, q), {}, "LEVINSON(r, %d)" % q),
+                           ((arg,), {"allow_singularity": False}, "LEVINSON(r, allow_singularity=False)")):
+        raised = False
+        try:
+            with np.errstate(all="ignore"):
+                spectrum.LEVINSON(*args, **kw)
+        except ValueError:
+            raised = True
+        ctx.check(raised, "%s did not raise although r[0] = %r <= 0 (order %d, r[1] = %r): no leading block is positive definite"
+                  % (what, r[0], p, r[1]), sig=sig)
+    if mode != "zero":
+        try:
+            with np.errstate(all="ignore"):
+                A, _Pl, kk = spectrum.LEVINSON(arg, allow_singularity=True)
+        except ValueError:
+            ctx.fail("LEVINSON(allow_singularity=True) raised for r[0] < 0 although singularity is allowed", sig=sig)
+        ctx.check(len(A) == p and len(kk) == p, "allow_singularity=True: %d coefficients for order %d" % (len(A), p), sig=sig)
+
+
+# ----------------------------------------------------------------------------
 # HERMTOEP
 # ----------------------------------------------------------------------------
 def _rhs(draw, n, cplx):
@@ -644,11 +712,15 @@ def cholesky_case(draw):
         case["n"] = len(kf["k"]["re"]) + 1
         case["b"] = _rhs(draw, case["n"], draw(st.booleans()))
         case["r0"] = draw(st.sampled_from(R0S))
+    # AX = B with stacked right-hand sides (the documented form): further columns drawn from a seed; None = a vector
+    case["rhs_cols"] = draw(st.sampled_from([None, None, None, 1, 2, 3, "n", "n"]))
+    if case["rhs_cols"] is not None:
+        case["rhs_seed"] = draw(gen.seeds)
     return case
 
 
 @sub("C10.cholesky", strategy=cholesky_case(), quick=500, thorough=20000,
-     doc="CHOLESKY(A, b, method) for the three back ends and the default: A x == b for Hermitian PD A = M M^H + s I or HPD Toeplitz; residual <= 1e-12*cond*|b|")
+     doc="CHOLESKY(A, b, method) for the three back ends and the default: A x == b for Hermitian PD A = M M^H + s I or HPD Toeplitz, b a vector or an n x K matrix of stacked right-hand sides; residual <= 1e-12*cond*|b|")
 def c10_cholesky(ctx, case):
     n = case["n"]
     if case["fam"] == "gram":
@@ -662,12 +734,32 @@ def c10_cholesky(ctx, case):
         if not case["complex"]:
             A = A.real.copy()
     b = gen.realise(case["b"])
+    K = case.get("rhs_cols")
+    if K is not None:
+        K = n if K == "n" else K
+        rng = np.random.default_rng(case["rhs_seed"])
+        extra = rng.standard_normal((n, K - 1)) * (float(np.max(np.abs(b))) or 1.0)
+        if np.iscomplexobj(b):
+            extra = extra + 1j * rng.standard_normal((n, K - 1))
+        b = np.column_stack([b] + [extra[:, i] for i in range(K - 1)])
     c = _cond(A)
     ctx.cls("A complex" if case["complex"] else "A real", "b " + gen.describe(case["b"]), "fam=" + case["fam"], "method=" + case["method"],
-            "n=1" if n == 1 else ("n=2-4" if n <= 4 else "n>=5"), _cbucket(c))
+            "n=1" if n == 1 else ("n=2-4" if n <= 4 else "n>=5"), _cbucket(c),
+            "rhs vector" if K is None else ("rhs n x n" if K == n else "rhs n x %d" % K))
     ctx.nontrivial(n >= 2 and bool(np.any(b != 0)))
     if case["method"] == "default":
         X = spectrum.CHOLESKY(A, b)
     else:
         X = spectrum.CHOLESKY(A, b, case["method"])
     _resid_ok(ctx, A.astype(complex), np.asarray(X), b.astype(complex), c, "CHOLESKY(%s)" % case["method"])
+
+
+# ---- call-form invariance (documented parameter names) ----------------------------
+from vlib import kwcheck as _kw   # noqa: E402
+
+
+@sub("C10.keywords", strategy=_kw.kw_case(_kw.PROPS["C10"]), quick=200, thorough=4000,
+     doc="the same call with its trailing arguments given by their documented names (any split, any order) returns the same "
+         "result as the positional call, and every documented name is accepted: " + ", ".join(_kw.PROPS["C10"]))
+def c10_keywords(ctx, case):
+    _kw.body(ctx, case)
